@@ -1,0 +1,18 @@
+//go:build verif
+
+package publish
+
+import (
+	"net/url"
+	"time"
+)
+
+// SetBaseURLForVerif points the publisher at another API endpoint and bounds
+// the retry back-off. It exists only in builds with the "verif" tag and is
+// used by the verification harness to talk to a fake Cloudflare API.
+func (cf *CloudflarePublisher) SetBaseURLForVerif(u url.URL, retryWaitMax time.Duration, retryMax int) {
+	cf.baseURL = u
+	cf.client.RetryWaitMin = retryWaitMax
+	cf.client.RetryWaitMax = retryWaitMax
+	cf.client.RetryMax = retryMax
+}
